@@ -470,6 +470,25 @@ async fn get_multiple_cids_from_store<const S: usize, B: Blockstore>(
 }
 
 #[cfg(beetswap_verif)]
+pub(crate) fn verif_take_next_message(
+    pending: Vec<(Vec<u8>, Vec<u8>)>,
+) -> (Message, Vec<(Vec<u8>, Vec<u8>)>) {
+    let mut pending = Some(
+        pending
+            .into_iter()
+            .map(|(prefix, data)| ProtoBlock { prefix, data })
+            .collect::<Vec<_>>(),
+    );
+    let msg = take_next_message(&mut pending);
+    let rest = pending
+        .unwrap_or_default()
+        .into_iter()
+        .map(|b| (b.prefix, b.data))
+        .collect();
+    (msg, rest)
+}
+
+#[cfg(beetswap_verif)]
 #[derive(Debug, Default)]
 pub(crate) struct VerifPeerWantlist<const S: usize>(PeerWantlist<S>);
 
